@@ -88,6 +88,8 @@ def reference(role, state, active, peer_gone, ack, idle_fire, has_send, kind):
             return WICEA, [(257, True)], False
         return CLOSED, E, False
     if state == WICEA:
+        if peer_gone:
+            return CLOSED, E, False        # "a peer disconnect ... closes it": also while awaiting the CEA
         if kind is None or kind == "cea_wrong_host":
             return WICEA, E, False
         if kind == "cea_ok":
